@@ -1,7 +1,11 @@
 package vlib
 
 import (
+	"encoding/json"
+	"strings"
+
 	"fmt"
+	"gopkg.in/yaml.v3"
 	"math/rand"
 	"os"
 
@@ -59,4 +63,48 @@ func IsASCII(s string) bool {
 		}
 	}
 	return true
+}
+
+// NotebookLayouts are ways a hand-maintained YAML list may be laid out that still hold the same entries.
+var NotebookLayouts = []string{"flow", "indented", "end-marker", "start-marker-and-comments", "no-final-newline", "crlf", "flow-one-line"}
+
+// WriteYAMLLayout writes the entries as a YAML list in one of NotebookLayouts (any other name: the plain block list).
+func WriteYAMLLayout(path string, cmds []Cmd, layout string) error {
+	data, err := yaml.Marshal(StripCaches(cmds))
+	if err != nil {
+		return err
+	}
+	block := string(data)
+	switch layout {
+	case "flow", "flow-one-line":
+		var v interface{}
+		if err := yaml.Unmarshal(data, &v); err != nil {
+			return err
+		}
+		var j []byte
+		if layout == "flow" {
+			j, err = json.MarshalIndent(v, "", "  ")
+		} else {
+			j, err = json.Marshal(v)
+		}
+		if err != nil {
+			return err
+		}
+		block = string(j) + "\n"
+	case "indented":
+		lines := strings.Split(strings.TrimRight(block, "\n"), "\n")
+		for i := range lines {
+			lines[i] = "  " + lines[i]
+		}
+		block = strings.Join(lines, "\n") + "\n"
+	case "end-marker":
+		block += "...\n"
+	case "start-marker-and-comments":
+		block = "# my own commands\n---\n# edited by hand\n" + block + "# end of the notebook\n"
+	case "no-final-newline":
+		block = strings.TrimRight(block, "\n")
+	case "crlf":
+		block = strings.ReplaceAll(block, "\n", "\r\n")
+	}
+	return os.WriteFile(path, []byte(block), 0o644)
 }
